@@ -25,6 +25,20 @@ Driver for C08.
                                (types F and D only)                                                                          ↦ retract h / nothing
             W                  engine.reset_with_deffacts(): working memory AND truth maintenance start again (handles from 1); one
                                deffacts fact is loaded ↦ a NEW history starts (model and oracle run it from `init`) with one insert
+            Q<f>               PROMOTION of a fact to a stated one: tms_mut().remove_justifications(f) + tms_mut().add_explicit_justification(f).
+                               As far as facts and support go this IS `add_explicit_justification(f)`: the justifications that are
+                               dropped could only have kept f, which the explicit one does from now on, and f's dependents are
+                               untouched ↦ add_explicit_justification f. The one observable difference is the COUNT of stored
+                               justifications (stats field 1), which the model line corrects by the number dropped (`removedOfSeg`).
+            F<a>+<a>[+<a>]     ONE firing whose action returns SEVERAL ActionResults, applied by process_action_results in the order
+                               emitted ↦ insert (trigger), then the operations the results stand for, in that order. The states
+                               BETWEEN the results of one firing cannot be observed through the API: the harness shows ONE step for the
+                               firing, its result = the single results joined by `+` (the twin TMS is fed the calls in the emitted order),
+                               its sets = the state after the firing. Model mode prints the same (`collapse`). Oracle mode (`expand`)
+                               evaluates Spec.runOk on the full history: the unobservable steps take the reported result and the sets
+                               the clauses themselves force there (the model's, which meet every clause by model_meets_spec and are the
+                               only ones that do by cascade_exact); the LAST result's step is the real observation after the firing, so
+                               every clause is evaluated on what the implementation shows once the firing is over.
           Rule names: a logical token (`L`, `Lk`, `J`, `Fl`) may end in `@<n>` = the source-rule NAME the harness hands to the call
           (entry n of its table: empty, blank, very long, non-ASCII, equal names …). The name is a label — `Model.Op` has no
           rule name and the property does not mention one — so the suffix is removed here (`stripName`) and model, oracle and
@@ -46,12 +60,19 @@ def parseOp (t : String) : Option Op :=
       pure (.addLogical f ps)
     | _ => none
   else if t.startsWith "X" then (t.drop 1).toString.toNat?.map .addExplicit
+  else if t.startsWith "Q" then (t.drop 1).toString.toNat?.map .addExplicit
   else if t.startsWith "R" then (t.drop 1).toString.toNat?.map .retract
   else none
 
 /-- the fact types the harness gives to the handles a token creates, in creation order
 (`F`/`D`: the shared types of explicit / logical facts, `N`: a type of its own, `P`: template type, `T`: trigger) -/
+def groupActs (t : String) : Option (List String) :=
+  if t.startsWith "F" && (t.splitOn "+").length ≥ 2 then some ((t.drop 1).toString.splitOn "+") else none
+
 def kindsOfTok (t : String) : List Char :=
+  if (groupActs t).isSome then
+    'T' :: ((groupActs t).getD []).filterMap fun a => if a = "i" then some 'F' else if a.startsWith "l" then some 'D' else none
+  else
   if t = "I" || t = "E" then ['F']
   else if t.startsWith "L" then ['D']
   else if t = "N" then ['N']
@@ -64,7 +85,25 @@ def kindsOfTok (t : String) : List Char :=
 def kindOf (kinds : List Char) (h : Nat) : Char := if h = 0 then '?' else kinds.getD (h - 1) '?'
 
 /-- a token of the case line ↦ the model operations (or `none` = a step that must change nothing) it stands for -/
+def parseAct (kinds : List Char) (a : String) : Option (Option Op) :=
+  if a = "i" then some (some .insertExplicit)
+  else if a = "n" || a = "g" || a = "c" || a = "s" then some none
+  else if a.startsWith "l" then (parseNats? (a.drop 1).toString).map fun ps => some (.insertLogical ps)
+  else if a.startsWith "r" then (a.drop 1).toString.toNat?.map fun h => some (.retract h)
+  else if a.startsWith "t" then (a.drop 1).toString.toNat?.map fun h => some (.retract (if kindOf kinds h == 'N' then h else 0))
+  else if a.startsWith "u" then (a.drop 1).toString.toNat?.map fun _ => none
+  else none
+
+/-- a firing with several results: the trigger's insert, then the operations the results stand for (results that insert and
+retract nothing are dropped; if none is left the firing is one step that must change nothing) -/
+def parseGroup (kinds : List Char) (acts : List String) : Option (List (Option Op)) :=
+  (acts.mapM (parseAct kinds)).map fun l =>
+    let ops := l.filterMap id
+    some .insert :: (if ops.isEmpty then [none] else ops.map some)
+
 def parseTok (kinds : List Char) (t : String) : Option (List (Option Op)) :=
+  if (groupActs t).isSome then parseGroup kinds ((groupActs t).getD [])
+  else
   if t = "C" || t = "A" || t = "Z" then some [none]
   else if t = "N" || t = "P" || t = "D" || t = "G" || t = "W" then some [some .insert]
   else if t.startsWith "U" then (t.drop 1).toString.toNat?.map fun _ => [none]
@@ -98,14 +137,63 @@ def stripName (t : String) : Option String :=
     if (a.startsWith "L" || a.startsWith "J" || a.startsWith "Fl") && n.toNat?.isSome then some a else none
   | _ => none
 
-def parseSeg (toks : List String) : Option (List (Option Op)) := do
+/-- which of the steps a token stands for cannot be observed (all results of a multi-result firing but the last) -/
+def hiddenOf (t : String) (n : Nat) : List Bool :=
+  if (groupActs t).isSome && n ≥ 3 then false :: (List.replicate (n - 2) true ++ [false]) else List.replicate n false
+
+def parseSeg (toks : List String) : Option (List (Option Op) × List Bool) := do
   let toks ← toks.mapM stripName
   let kinds := (toks.map kindsOfTok).flatten
-  (toks.mapM (parseTok kinds)).map List.flatten
+  let l ← toks.mapM fun t => (parseTok kinds t).map fun ops => (ops, hiddenOf t ops.length)
+  pure ((l.map (·.1)).flatten, (l.map (·.2)).flatten)
 
-/-- the histories of a case line (at least one; the first may be empty) -/
-def parseSegs (line : String) : Option (List (List (Option Op))) :=
+/-- justifications dropped so far by promotions (`Q<f>`: every justification stored for `f` goes before the explicit one is
+added), per step of a history: `cnt` = justifications currently stored per fact -/
+def bump (cnt : List (Nat × Nat)) (f : Nat) : List (Nat × Nat) :=
+  if cnt.any (·.1 == f) then cnt.map fun (g, c) => if g == f then (g, c + 1) else (g, c) else (f, 1) :: cnt
+
+def removedOfOps (isQ : Bool) : List (Option Op) → Nat → List (Nat × Nat) → Nat → List Nat × Nat × List (Nat × Nat) × Nat
+  | [], n, cnt, rem => ([], n, cnt, rem)
+  | op :: ops, n, cnt, rem =>
+    let (n', cnt', rem') :=
+      match op with
+      | some .insert | some .insertExplicit | some (.insertLogical _) => (n + 1, bump cnt (n + 1), rem)
+      | some (.addLogical f _) => (n, bump cnt f, rem)
+      | some (.addExplicit f) =>
+        if isQ then (n, bump (cnt.filter (·.1 != f)) f, rem + ((cnt.find? (·.1 == f)).map (·.2)).getD 0)
+        else (n, bump cnt f, rem)
+      | _ => (n, cnt, rem)
+    let r := removedOfOps isQ ops n' cnt' rem'
+    (rem' :: r.1, r.2)
+
+def removedOfSeg (toks : List String) : List Nat :=
+  match toks.mapM stripName with
+  | none => []
+  | some toks =>
+    let kinds := (toks.map kindsOfTok).flatten
+    let rec go (ts : List String) (n : Nat) (cnt : List (Nat × Nat)) (rem : Nat) : List Nat :=
+      match ts with
+      | [] => []
+      | t :: r =>
+        let (l, n', cnt', rem') := removedOfOps (t.startsWith "Q") ((parseTok kinds t).getD []) n cnt rem
+        l ++ go r n' cnt' rem'
+    go toks 0 [] 0
+
+/-- a step with its justification count lowered by `rem` -/
+def lessJusts (st : String) (rem : Nat) : String :=
+  if rem = 0 then st else
+  match st.splitOn "/" with
+  | [r, p, l, e, v, stats] =>
+    match parseNats? stats with
+    | some (j :: rest) => "/".intercalate [r, p, l, e, v, showNats ((j - rem) :: rest)]
+    | _ => st
+  | _ => st
+
+/-- the histories of a case line (at least one; the first may be empty), each with its hidden-step flags -/
+def parseSegsH (line : String) : Option (List (List (Option Op) × List Bool)) :=
   ((splitW (tokens line)).filter fun seg => !seg.isEmpty).mapM parseSeg
+
+def parseSegs (line : String) : Option (List (List (Option Op))) := (parseSegsH line).map fun l => l.map (·.1)
 
 def univSegs (segs : List (List (Option Op))) : Nat := (segs.map fun ts => universeOf (stripC ts)).foldl max 0
 
@@ -128,6 +216,32 @@ def weave (ts : List (Option Op)) (steps : List String) (prev : String) : List S
 theorems `C08.maintenance_noop`, `C08.maintenance_exact`); `.error i` = the maintenance clause fails at (original) step `i` -/
 def unweave (ts : List (Option Op)) (steps : List String) (prev : String) (i : Nat) : Except Nat (List String) :=
   C08.unweave strView ts steps prev i
+
+def resOf (st : String) : String := (st.splitOn "/").headD ""
+
+/-- model mode: the unobservable steps of a multi-result firing disappear, their results are put in front of the result of the
+firing's last step, joined by `+` -/
+def collapse : List Bool → List String → String → List String
+  | true :: hs, st :: sts, pre => collapse hs sts (pre ++ resOf st ++ "+")
+  | false :: hs, st :: sts, pre => (pre ++ st) :: collapse hs sts ""
+  | _, _, _ => []
+
+/-- oracle mode: the observed step of a multi-result firing (`r1+r2+…/sets`) is taken apart again: an unobservable step gets its
+reported result and the sets of `mdl` (the model's steps), the last one the remaining result and the observed sets -/
+def expand : List Bool → List String → List String → Option (List String) → List String
+  | [], _, _, _ => []
+  | true :: hs, m :: ms, o :: os, pend =>
+    match pend.getD ((resOf o).splitOn "+") with
+    | p :: rest => (p ++ "/" ++ setsOf m) :: expand hs ms (o :: os) (some rest)
+    | [] => ("?/" ++ setsOf m) :: expand hs ms (o :: os) (some [])
+  | false :: hs, _ :: ms, o :: os, pend =>
+    match pend with
+    | some parts => ("+".intercalate parts ++ "/" ++ setsOf o) :: expand hs ms os none
+    | none => o :: expand hs ms os none
+  | _, _, _, _ => []
+
+/-- index of an (expanded) step among the observed ones -/
+def visIdx (hid : List Bool) (i : Nat) : Nat := i - ((hid.take i).filter id).length
 
 def showRes : Res → String
   | .handle h => s!"h{h}"
@@ -168,6 +282,12 @@ def modelLine (line : String) : String :=
   | some segs =>
     let k := univSegs segs
     let out := (segs.map fun ts => weave ts ((trace k init (stripC ts)).map showObs) emptySets).flatten
+    let out := if (tokens line).any (·.startsWith "Q") then
+        let rem := (((splitW (tokens line)).filter fun seg => !seg.isEmpty).map removedOfSeg).flatten
+        (out.zip rem).map fun (st, r) => lessJusts st r
+      else out
+    let hid := (((parseSegsH line).getD []).map (·.2)).flatten
+    let out := if hid.any id then collapse hid out "" else out
     if out.isEmpty then "-" else ";".intercalate out
   | none => "bad-case"
 
@@ -251,7 +371,7 @@ def stripFlags (o : String) : String × List String :=
   (";".intercalate (parts.map (·.1)), (parts.map (·.2)).flatten.eraseDups)
 
 /-- one history (segment) of a case: `.ok tags` or `.error (clause, local step)` -/
-def oracleSeg (k : Nat) (ts : List (Option Op)) (steps : List String) : Except (String × Nat) (List String) :=
+def oracleSegX (k : Nat) (ts : List (Option Op)) (steps : List String) : Except (String × Nat) (List String) :=
   let hasC := !ts.all Option.isSome
   -- the steps that must change nothing first: checked here and removed
   match unweave ts steps emptySets 0 with
@@ -275,22 +395,33 @@ def oracleSeg (k : Nat) (ts : List (Option Op)) (steps : List String) : Except (
         | none => .error ("length", pos ts i 0)
     | none => .error ("unparsable-observation", 0)
 
-def takeSegs : List (List (Option Op)) → List String → List (List (Option Op) × List String)
+/-- one history with hidden steps: the observed steps are expanded first (`expand`), failure positions are mapped back -/
+def oracleSeg (k : Nat) (ts : List (Option Op)) (hid : List Bool) (steps : List String) : Except (String × Nat) (List String) :=
+  if hid.any id then
+    let mdl := weave ts ((trace k init (stripC ts)).map showObs) emptySets
+    match oracleSegX k ts (expand hid mdl steps none) with
+    | .ok t => .ok (t ++ ["multi_result_firing"])
+    | .error (cl, i) => .error (cl, visIdx hid i)
+  else oracleSegX k ts steps
+
+def visLen (hid : List Bool) : Nat := (hid.filter (!·)).length
+
+def takeSegs : List (List (Option Op) × List Bool) → List String → List ((List (Option Op) × List Bool) × List String)
   | [], _ => []
-  | ts :: r, steps => (ts, steps.take ts.length) :: takeSegs r (steps.drop ts.length)
+  | ts :: r, steps => (ts, steps.take (visLen ts.2)) :: takeSegs r (steps.drop (visLen ts.2))
 
 def oracleLine (line : String) : String :=
   match line.splitOn " | " with
   | [c, o] =>
     let (o, flags) := stripFlags o.trimAscii.toString
-    match parseSegs c with
+    match parseSegsH c with
     | some segs =>
-      let k := univSegs segs
+      let k := univSegs (segs.map (·.1))
       let steps := if o = "-" then [] else o.splitOn ";"
-      if steps.length != (segs.map List.length).foldl (· + ·) 0 then
+      if steps.length != (segs.map fun s => visLen s.2).foldl (· + ·) 0 then
         (if steps.any (fun st => (st.splitOn "/").length != 6) then "fail unparsable-observation" else s!"fail length@{steps.length}")
       else
-      let rec go (l : List (List (Option Op) × List String)) (off : Nat) (tags : List String) : String :=
+      let rec go (l : List ((List (Option Op) × List Bool) × List String)) (off : Nat) (tags : List String) : String :=
         match l with
         | [] =>
           match flags with
@@ -298,9 +429,9 @@ def oracleLine (line : String) : String :=
               ++ (if (c.splitOn "@").length > 1 then ["rule_name_given"] else [])
               ++ (if (tokens c).any (fun t => t.endsWith "@0") then ["rule_name_empty"] else []))
           | f :: _ => s!"fail inconsistent-{f}"
-        | (ts, st) :: r =>
-          match oracleSeg k ts st with
-          | .ok t => go r (off + ts.length) (tags ++ t)
+        | ((ts, hid), st) :: r =>
+          match oracleSeg k ts hid st with
+          | .ok t => go r (off + visLen hid) (tags ++ t)
           | .error (cl, i) => if cl = "unparsable-observation" then "fail unparsable-observation" else s!"fail {cl}@{off + i}"
       go (takeSegs segs steps) 0 []
     | none => "bad-input"
